@@ -26,12 +26,16 @@ CONSTANTS Fns, Hs,         \* function ids, argument-hash ids
           MKs,             \* custom metadata keys
           SepMeta,         \* metadata kept under a separate path
           MaxVer, MaxMid,  \* bounds for the exhaustive configuration
-          KF_OversizeStale, KF_StaleRef
+          KF_OversizeStale, KF_StaleRef,
+          KF_MetaByObject  \* open finding: metadata stored "with the data" is keyed by the result object, not the call
 
 VARIABLES mstore,   \* live mementos: key -> [mid, ck, v] or NoMem
           objs,     \* versioned objects: <<kind, id, ver>> -> bytes class (0 = absent)
           links,    \* pointer files: <<kind, id>> -> current version (0 = absent)
-          meta,     \* custom metadata: <<key, mk>> -> bytes id (0 = absent)
+          meta,     \* custom metadata: <<key, mk>> -> [form ("none" | "plain" | "wd"), b (bytes id, 0 = absent)]
+                    \*   plain: the value is a file of the metadata store; wd ("with data"): the metadata store holds
+                    \*   an empty marker and the value is a file next to the result object of the call's memento
+          ometa,    \* metadata files next to result objects: <<object key, mk>> -> bytes id (0 = absent)
           nextVer, nextMid,
           cache,    \* [ent : key -> entry, lru : Seq(key), usage : Nat]
           refs,     \* weak table: key -> value still referenced by the client (0 = none)
@@ -40,8 +44,8 @@ VARIABLES mstore,   \* live mementos: key -> [mid, ck, v] or NoMem
           dm, lm,   \* monitor states
           ok        \* monitors accepted everything so far
 
-vars == <<mstore, objs, links, meta, nextVer, nextMid, cache, refs, ro, last, dm, lm, ok>>
-view == <<mstore, objs, links, meta, nextVer, nextMid, cache, refs, ro, dm, lm, ok>>
+vars == <<mstore, objs, links, meta, ometa, nextVer, nextMid, cache, refs, ro, last, dm, lm, ok>>
+view == <<mstore, objs, links, meta, ometa, nextVer, nextMid, cache, refs, ro, dm, lm, ok>>
 
 D == INSTANCE DictMon
 L == INSTANCE LruMon
@@ -106,7 +110,8 @@ Emit(e, c) ==
     /\ UNCHANGED ro
 
 Ev(op) == [op |-> op, exc |-> "", proj |-> 0, ro |-> ro, muts |-> 0, same |-> TRUE]
-Stores == <<mstore, objs, links, meta, nextVer, nextMid>>
+Stores == <<mstore, objs, links, meta, ometa, nextVer, nextMid>>
+NoMeta == [form |-> "none", b |-> 0]
 \* a write attempted through a read-only backend: memoize is skipped, the others raise
 RoWrite(e, exc) == /\ ro
                    /\ UNCHANGED <<Stores, cache, refs>>
@@ -117,7 +122,8 @@ Init ==
     /\ mstore = [k \in Keys |-> NoMem]
     /\ objs = [o \in ObjKeys |-> 0]
     /\ links = [x \in LinkKeys |-> 0]
-    /\ meta = [x \in Keys \X MKs |-> 0]
+    /\ meta = [x \in Keys \X MKs |-> NoMeta]
+    /\ ometa = [x \in ObjKeys \X MKs |-> 0]
     /\ nextVer = 1 /\ nextMid = 1
     /\ cache = [ent |-> [k \in Keys |-> NoEnt], lru |-> <<>>, usage |-> 0]
     /\ refs = [k \in Keys |-> 0]
@@ -156,7 +162,7 @@ Memoize(k, v, ovr) ==
        /\ nextVer' = IF newobj THEN nextVer + 1 ELSE nextVer
        /\ nextMid' = nextMid + 1
        /\ mstore' = [mstore EXCEPT ![k] = [mid |-> mid, ck |-> ck, v |-> v]]
-       /\ UNCHANGED meta
+       /\ UNCHANGED <<meta, ometa>>
        /\ Emit(e0, c1)
 
 (* StorageBackendBase.get_mementos, storage_base.py:1339-1367                      *)
@@ -174,7 +180,7 @@ GetMementos(ks) ==
         c1  == IF HasCache THEN FillMisses(cache, ks, hit) ELSE cache
     IN
     /\ cache' = c1
-    /\ UNCHANGED <<mstore, objs, links, meta, nextVer, nextMid, refs>>
+    /\ UNCHANGED <<mstore, objs, links, meta, ometa, nextVer, nextMid, refs>>
     /\ Emit(Ev("GetMementos") @@ [keys |-> ks, ret |-> ret], c1)
 
 (* StorageBackendBase.read_result, storage_base.py:1369-1385 (memento = the one    *)
@@ -194,7 +200,7 @@ ReadResult(k) ==
     IN
     /\ m.mid # 0
     /\ cache' = c1 /\ refs' = r1
-    /\ UNCHANGED <<mstore, objs, links, meta, nextVer, nextMid>>
+    /\ UNCHANGED <<mstore, objs, links, meta, ometa, nextVer, nextMid>>
     /\ Emit(Ev("ReadResult") @@ [f |-> k[1], h |-> k[2], mid |-> m.mid, ret |-> ret, size |-> Size[val],
              reads |-> IF br = "store_load" /\ m.ck[1] # "n" THEN 1 ELSE 0, cacheable |-> HasCache, br |-> br], c1)
 
@@ -203,7 +209,7 @@ CacheSays(c, k) == HasCache /\ (c.ent[k].res \/ refs[k] # 0)
 IsMemoized(k) ==
     LET c1 == IF HasCache /\ cache.ent[k].res THEN MarkUsed(cache, k) ELSE cache IN
     /\ cache' = c1
-    /\ UNCHANGED <<mstore, objs, links, meta, nextVer, nextMid, refs>>
+    /\ UNCHANGED <<mstore, objs, links, meta, ometa, nextVer, nextMid, refs>>
     /\ Emit(Ev("IsMemoized") @@ [f |-> k[1], h |-> k[2], ret |-> (CacheSays(cache, k) \/ mstore[k].mid # 0)], c1)
 
 RECURSIVE MarkAll(_, _)
@@ -214,7 +220,7 @@ IsAllMemoized(ks) ==
         incache == \A i \in 1..Len(ks) : CacheSays(cache, ks[i])
     IN
     /\ cache' = c1
-    /\ UNCHANGED <<mstore, objs, links, meta, nextVer, nextMid, refs>>
+    /\ UNCHANGED <<mstore, objs, links, meta, ometa, nextVer, nextMid, refs>>
     /\ Emit(Ev("IsAllMemoized") @@ [keys |-> ks,
              ret |-> (incache \/ \A i \in 1..Len(ks) : mstore[ks[i]].mid # 0)], c1)
 
@@ -228,25 +234,25 @@ Forget(S, op, e) ==
     /\ cache' = c1
     /\ refs' = [k \in Keys |-> IF k \in S THEN 0 ELSE refs[k]]
     /\ mstore' = [k \in Keys |-> IF k \in S THEN NoMem ELSE mstore[k]]
-    /\ meta' = [x \in Keys \X MKs |-> IF x[1] \in S THEN 0 ELSE meta[x]]
+    /\ meta' = [x \in Keys \X MKs |-> IF x[1] \in S THEN NoMeta ELSE meta[x]]   \* values and markers in the metadata store
     /\ UNCHANGED <<nextVer, nextMid>>
     /\ Emit(Ev(op) @@ e, c1)
 
-ForgetCall(k)     == \/ Forget({k}, "ForgetCall", [f |-> k[1], h |-> k[2]]) /\ UNCHANGED <<objs, links>>
+ForgetCall(k)     == \/ Forget({k}, "ForgetCall", [f |-> k[1], h |-> k[2]]) /\ UNCHANGED <<objs, links, ometa>>
                      \/ RoWrite(Ev("ForgetCall") @@ [f |-> k[1], h |-> k[2]], "ValueError")
-ForgetFunction(f) == \/ Forget({k \in Keys : k[1] = f}, "ForgetFunction", [f |-> f]) /\ UNCHANGED <<objs, links>>
+ForgetFunction(f) == \/ Forget({k \in Keys : k[1] = f}, "ForgetFunction", [f |-> f]) /\ UNCHANGED <<objs, links, ometa>>
                      \/ RoWrite(Ev("ForgetFunction") @@ [f |-> f], "ValueError")
 ForgetEverything  ==
     \/ /\ Forget(Keys, "ForgetEverything", [x |-> 0])
-       /\ IF SepMeta THEN UNCHANGED <<objs, links>>     \* only the metadata root is removed
-          ELSE objs' = [o \in ObjKeys |-> 0] /\ links' = [x \in LinkKeys |-> 0]
+       /\ IF SepMeta THEN UNCHANGED <<objs, links, ometa>>     \* only the metadata root is removed
+          ELSE objs' = [o \in ObjKeys |-> 0] /\ links' = [x \in LinkKeys |-> 0] /\ ometa' = [x \in ObjKeys \X MKs |-> 0]
     \/ RoWrite(Ev("ForgetEverything") @@ [x |-> 0], "ValueError")
 
 (* listings and custom metadata (never cached)                                      *)
 SetToSeq(S) == LET RECURSIVE F(_)
                    F(T) == IF T = {} THEN <<>> ELSE LET x == CHOOSE y \in T : \A z \in T : y <= z IN <<x>> \o F(T \ {x})
                IN F(S)
-Quiet(e) == /\ UNCHANGED <<mstore, objs, links, meta, nextVer, nextMid, cache, refs>>
+Quiet(e) == /\ UNCHANGED <<mstore, objs, links, meta, ometa, nextVer, nextMid, cache, refs>>
             /\ Emit(e, cache)
 
 ListFunctions == Quiet(Ev("ListFunctions") @@ [ret |-> SetToSeq({k[1] : k \in LiveKeys})])
@@ -255,21 +261,46 @@ ListMementos(f, limit) ==
         n   == IF limit = 0 \/ limit > Len(all) THEN Len(all) ELSE limit
     IN Quiet(Ev("ListMementos") @@ [f |-> f, limit |-> limit, ret |-> SubSeq(all, 1, n)])
 
-WriteMetadata(k, mk, b) ==
-    \/ mstore[k].mid # 0 /\ RoWrite(Ev("WriteMetadata") @@ [f |-> k[1], h |-> k[2], mk |-> mk, b |-> b], "ValueError")
+(* write_metadata, storage_base.py:1494-1513 + DataSourceMetadataSource.write_metadata; wd = put_metadata(...,   *)
+(* store_with_data=True): the value goes next to the result object of the call's memento (a None result has      *)
+(* none: plain form); writing one form removes the entry of the other form                                       *)
+WriteMetadata(k, mk, b, wd) ==
+    LET ck   == mstore[k].ck
+        form == IF wd /\ ck[1] # "n" THEN "wd" ELSE "plain"
+        e    == Ev("WriteMetadata") @@ [f |-> k[1], h |-> k[2], mk |-> mk, b |-> b, wd |-> wd]
+    IN
+    \/ mstore[k].mid # 0 /\ RoWrite(e, "ValueError")
     \/ /\ ~ro
        /\ mstore[k].mid # 0
-       /\ meta' = [meta EXCEPT ![<<k, mk>>] = b]
+       /\ meta' = [meta EXCEPT ![<<k, mk>>] = [form |-> form, b |-> b]]
+       /\ ometa' = IF form = "wd" THEN [ometa EXCEPT ![<<ck, mk>>] = b] ELSE ometa
        /\ UNCHANGED <<mstore, objs, links, nextVer, nextMid, cache, refs>>
-       /\ Emit(Ev("WriteMetadata") @@ [f |-> k[1], h |-> k[2], mk |-> mk, b |-> b], cache)
+       /\ Emit(e, cache)
+(* read_metadata, storage_base.py:1468-1492: a plain entry is read from the metadata store; for a marker the       *)
+(* call's memento is looked up (through the cache, like get_mementos) and the value read next to its object.        *)
+(* Intended: the last value written for the call.  KF_MetaByObject (pinned behaviour): whatever lies next to the    *)
+(* object the call's memento names NOW - nothing after a re-memoize, another call's value when the object is shared *)
 ReadMetadata(k, mk) ==
-    Quiet(Ev("ReadMetadata") @@ [f |-> k[1], h |-> k[2], mk |-> mk, ret |-> meta[<<k, mk>>]])
+    LET m   == meta[<<k, mk>>]
+        hit == HasCache /\ cache.ent[k].res
+        c1  == IF m.form = "wd" /\ HasCache THEN FillMisses(cache, <<k>>, <<hit>>) ELSE cache
+        ck  == mstore[k].ck
+        e   == Ev("ReadMetadata") @@ [f |-> k[1], h |-> k[2], mk |-> mk, ret |-> m.b]
+    IN
+    /\ cache' = c1
+    /\ UNCHANGED <<mstore, objs, links, meta, ometa, nextVer, nextMid, refs>>
+    /\ IF m.form = "wd" /\ KF_MetaByObject
+       THEN IF mstore[k].mid = 0 THEN Emit([e EXCEPT !.exc = "OSError", !.ret = 0], c1)
+            ELSE IF ck[1] = "n" THEN Emit([e EXCEPT !.exc = "AttributeError", !.ret = 0], c1)
+            ELSE IF ometa[<<ck, mk>>] = 0 THEN Emit([e EXCEPT !.exc = "FileNotFoundError", !.ret = 0], c1)
+            ELSE Emit([e EXCEPT !.ret = ometa[<<ck, mk>>]], c1)
+       ELSE Emit(e, c1)
 
 (* the client drops its reference to a returned value: the weak table forgets it    *)
 Gc(k) ==
     /\ refs[k] # 0
     /\ refs' = [refs EXCEPT ![k] = 0]
-    /\ UNCHANGED <<mstore, objs, links, meta, nextVer, nextMid, cache, ro, dm, lm, ok>>
+    /\ UNCHANGED <<mstore, objs, links, meta, ometa, nextVer, nextMid, cache, ro, dm, lm, ok>>
     /\ last' = [op |-> "Gc", f |-> k[1], h |-> k[2]]
 
 (* a new backend object is opened on the same store, read-write or read-only: cold cache *)
@@ -290,7 +321,7 @@ Next ==
     \/ \E f \in Fns : ForgetFunction(f) \/ ListMementos(f, 0) \/ ListMementos(f, 1)
     \/ ForgetEverything \/ ListFunctions
     \/ \E r \in BOOLEAN : Reopen(r)
-    \/ \E k \in Keys, mk \in MKs : ReadMetadata(k, mk) \/ \E b \in 1..2 : WriteMetadata(k, mk, b)
+    \/ \E k \in Keys, mk \in MKs : ReadMetadata(k, mk) \/ \E b \in 1..2, wd \in BOOLEAN : WriteMetadata(k, mk, b, wd)
 
 Spec == Init /\ [][Next]_vars
 
